@@ -105,3 +105,6 @@ class NocaseDict(HashableMixin, KeyableByMixin('name'), _NocaseDict):
         result._data = self._data.copy()
         result.allow_unnamed_keys = self.allow_unnamed_keys
         return result
+
+    # copy.copy() must not share the internal dictionary with the original
+    __copy__ = copy
